@@ -197,6 +197,16 @@ def findLet (name : Str) : List LetExpr → Option LetValue
     | some v => some v
     | none => if l.var = name then some l.value else none
 
+/-- is `name` bound (in the nearest scope that binds it) to a LIST literal?  The documentation does not say
+    how a literal list on the left-hand side is compared with a literal (as one value, or member by member). -/
+def literalListVar (name : Str) : List Frame → Bool
+  | [] => false
+  | f :: outer =>
+    match findLet name f.lets with
+    | some (.value (.list _ _)) => true
+    | some _ => false
+    | none => literalListVar name outer
+
 /-- variables are single-assignment: a scope that assigns one name twice is outside the fragment -/
 def dupLets : List LetExpr → Bool
   | [] => false
@@ -333,6 +343,10 @@ def clause (fuel : Nat) (c : Ctx) : Clause → SR Status
     else
       match withV with
       | some (.value lit) =>
+        if (match q with
+            | [p] => (match p.variable with | some name => literalListVar name c.frames | none => false)
+            | _ => false) then .outside        -- literal list vs literal: not in the documented core
+        else
         if results.isEmpty then pure .skip
         else do
           let rows ← mapM' (fun r => match r with
